@@ -379,6 +379,12 @@ func genSMCases(c *Ctx) []json.RawMessage {
 	}
 	// many fresh instances per small size class: random seeds produce many collision-chain shapes
 	// (small tables have 1, 7 or 17 slots, collisions are the norm)
+	// key counts on both sides of every step of the prime table (4n/3 crossing a power of two)
+	for _, n := range []int{11, 12, 23, 24, 47, 48, 95, 96, 191, 192, 383, 384, 767, 768, 1535, 1536} {
+		for i := 0; i < c.Pick(2, 12); i++ {
+			out = append(out, mustJSON(SMCase{VT: vts[(n+i)%3], Loads: []SMLoad{mk(n, 40), mk(n-1, 10), mk(n+1, 10)}}))
+		}
+	}
 	for _, n := range []int{1, 2, 3, 4, 5, 6, 8, 12, 13, 20} {
 		for i := 0; i < c.Pick(60, 400); i++ {
 			out = append(out, mustJSON(SMCase{VT: vts[i%3], Fresh: i%9 == 0, Loads: []SMLoad{mk(n, 12)}}))
